@@ -23,6 +23,10 @@ type lh struct {
 	he   []*lists.Element[int] // handle table (real)
 	hr   []*clist.Element      // handle table (reference)
 	free []bool
+	// zombie: the element was in a list when Init was called on it. It still points into the old
+	// chain (and, in container/list, still claims to belong to the list); only its observers are
+	// compared from then on, because mutating calls with such a handle corrupt container/list itself
+	zombie []bool
 }
 
 func newLH(h int) *lh {
@@ -33,6 +37,7 @@ func newLH(h int) *lh {
 	x.R[1] = clist.New()
 	x.he = make([]*lists.Element[int], h)
 	x.hr = make([]*clist.Element, h)
+	x.zombie = make([]bool, h)
 	x.free = make([]bool, h)
 	for i := range x.free {
 		x.free[i] = true
@@ -136,7 +141,7 @@ func (x *lh) Ops() []seqmc.Op {
 	room := x.room()
 	var live []int
 	for i := range x.he {
-		if !x.free[i] {
+		if !x.free[i] && !x.zombie[i] {
 			live = append(live, i)
 		}
 	}
@@ -160,8 +165,8 @@ func (x *lh) Ops() []seqmc.Op {
 		}
 		ops = append(ops, seqmc.Op{Name: "Init", A: l})
 	}
-	for _, i := range live {
-		if !x.inAnyList(i) {
+	for i := range x.he {
+		if !x.free[i] && !x.inAnyList(i) {
 			ops = append(ops, seqmc.Op{Name: "Forget", A: i})
 		}
 	}
@@ -171,6 +176,15 @@ func (x *lh) Ops() []seqmc.Op {
 func (x *lh) Apply(op seqmc.Op) *seqmc.Fail { return x.apply(op) }
 
 func (x *lh) apply(op seqmc.Op) *seqmc.Fail {
+	// zombies are observed in the state right after the Init that orphaned them, then dropped
+	for i := range x.zombie {
+		if x.zombie[i] {
+			x.he[i], x.hr[i], x.free[i], x.zombie[i] = nil, nil, true, false
+		}
+	}
+	if op.Name == "Forget" && x.free[op.A] {
+		return nil
+	}
 	l, r := x.L[op.A%2], x.R[op.A%2]
 	reg := func(e *lists.Element[int], re *clist.Element, what string) *seqmc.Fail {
 		if (e == nil) != (re == nil) {
@@ -238,12 +252,12 @@ func (x *lh) apply(op seqmc.Op) *seqmc.Fail {
 			e, re = e.Next(), re.Next()
 		}
 	case "Init":
-		// elements orphaned by Init are not used again (their handles are dropped): using
-		// them afterwards corrupts container/list itself
+		// elements orphaned by Init become zombies: their observers (Next, Prev, Value) are still
+		// compared with container/list, but they are not passed to mutating calls any more
 		for e, n := r.Front(), 0; e != nil && n < travCap; e, n = e.Next(), n+1 {
 			for i := range x.hr {
 				if !x.free[i] && x.hr[i] == e {
-					x.he[i], x.hr[i], x.free[i] = nil, nil, true
+					x.zombie[i] = true
 				}
 			}
 		}
@@ -252,12 +266,12 @@ func (x *lh) apply(op seqmc.Op) *seqmc.Fail {
 		}
 		r.Init()
 	case "Forget":
-		x.he[op.A], x.hr[op.A], x.free[op.A] = nil, nil, true
+		x.he[op.A], x.hr[op.A], x.free[op.A], x.zombie[op.A] = nil, nil, true, false
 	}
 	return nil
 }
 
-func (x *lh) Key() string { return fp.Of(x.L[0], x.L[1], &x.he) }
+func (x *lh) Key() string { return fp.Of(x.L[0], x.L[1], &x.he, &x.zombie) }
 
 func (x *lh) Observe() *seqmc.Fail {
 	for l := 0; l < 2; l++ {
